@@ -108,6 +108,26 @@ def run_c11(ck, ctx):
                 ck.violation('cli_stuck_bit', {'what': f'the same reserved bit set in every {kind.upper()} of the stream is not reported at every one of them '
                                                         '(the sanity verdict must depend on the word alone)', 'kind': kind,
                                                'missing': sorted(want - got)[:10], 'expected': len(want), 'input_hex': data.hex(), 'args': ' '.join(mode)})
+    # CLI level: "its lane is not active in the GOVERNING IHW" — the IHW in front of the data word, whatever its own sanity verdict:
+    # an IHW with a reserved bit set (reported [E30]) whose active lanes differ from the previous IHW's still governs its data words
+    for vname, lanes1, lanes2, dlane, expect_e72 in (('lane_removed', 0b111, 0b011, 2, True), ('lane_added', 0b011, 0b111, 2, False),
+                                                    ('lane_swapped', 0b101, 0b110, 0, True), ('same', 0b111, 0b111, 1, False)):
+        bad_ihw = bytearray(G.ihw(lanes2)); bad_ihw[5] |= 0x20
+        first_lane = 0 if lanes1 & 1 else 1
+        pk = [G.Pkt(dict(orbit=50, page=0, trig=0x6a03), [G.ihw(lanes1), G.tdh(trig=3, orbit=50), G.dw(0x20 + first_lane, b'\x00' * 9), G.tdt(done=1)]),
+              G.Pkt(dict(orbit=50, page=1, stop=1, trig=0x6a03), [G.ddw0()]),
+              G.Pkt(dict(orbit=51, page=0, trig=0x6a03), [bytes(bad_ihw), G.tdh(trig=3, orbit=51), G.dw(0x20 + dlane, b'\x00' * 9), G.tdt(done=1)]),
+              G.Pkt(dict(orbit=51, page=1, stop=1, trig=0x6a03), [G.ddw0()])]
+        data = G.encode(pk)
+        base = pk[0].size() + pk[1].size()
+        r = L.run_cli(['check', 'all', 'its'], data)
+        got = {(e[0], e[1]) for e in r.errors}
+        ck.case(('cli_governing_ihw', vname)); ck.count('cli_governing_ihw')
+        want_ihw = (base + 64, 'E30'); dw_at = (base + 64 + 20, 'E72')
+        if want_ihw not in got or ((dw_at in got) != expect_e72):
+            ck.violation('cli_governing_ihw', {'what': 'a data word must be judged against the active lanes of the IHW in front of it (also when that IHW itself fails its sanity check)',
+                                               'variant': vname, 'lanes_previous_ihw': lanes1, 'lanes_governing_ihw': lanes2, 'data_word_lane': dlane,
+                                               'expected_E72_at_data_word': expect_e72, 'got': sorted(got), 'input_hex': data.hex(), 'args': 'check all its'})
     if not ctx['harness_ok']:
         ck.notes.append('C11: harness unavailable, unit correspondence skipped'); return
     impl, model, dis = corr(ck, 'word_sanity', reqs)
